@@ -49,6 +49,7 @@ def _simplify_primitive(ctx: Ctx) -> None:
     RP.rule_polytope_roundtrip(ctx)
     RP.rule_back_conversion_every_row(ctx)
     RP.rule_lp_zero_columns(ctx, P + "reduce_polytope", ["a", "a_help"], ["b"])
+    RP.rule_lp_bounds(ctx)
 
 
 def c05(ctx: Ctx) -> None:
@@ -106,6 +107,8 @@ def c15(ctx: Ctx) -> None:
     # "verbatim" rests on the list operators and on exact term equality (a tolerant == makes | and - drop near-equal terms)
     RA.rule_tl_operators(ctx)
     RS.rule_eq(ctx)
+    # every result passes through simplify: a simplification that changes the meaning forgets guarantees
+    _simplify_primitive(ctx)
 
 
 def c16(ctx: Ctx) -> None:
@@ -236,7 +239,8 @@ def c19(ctx: Ctx) -> None:
     RS.rule_hash_order(ctx)
     RS.rule_hash_number_text(ctx)
     RS.rule_copy(ctx)
-    RK.rule_term_kernels(ctx, ["copy"])
+    # a copy equals its original only if no kernel leaves a zero coefficient behind (the constructor drops it on copy)
+    RK.rule_term_kernels(ctx, ["copy", "rename", "remove", "add", "multiply"])
 
 
 def c17(ctx: Ctx) -> None:
